@@ -33,6 +33,8 @@ func main() {
 		cmdRand(os.Args[2:])
 	case "rerun":
 		cmdRerun(os.Args[2:])
+	case "fuzz":
+		cmdFuzz(os.Args[2:])
 	default:
 		die("unknown sub-command %s", os.Args[1])
 	}
